@@ -110,6 +110,36 @@ pub fn attach(bytes: &[u8], o: DwarfOpts) -> Option<Vec<u8>> {
     }
 }
 
+/// DWARF 5 numbers files from 0 (the primary source file); gimli::write never emits a row naming file 0, so one
+/// `DW_LNS_set_file` operand of the synthesized program is patched to 0 -- accepted only if the patched program reads
+/// back with the same rows at the same addresses and some row now names file 0.
+pub fn patch_row_to_file0(bytes: &[u8]) -> Option<Vec<u8>> {
+    let (rows0, _) = read_back(bytes).ok()?;
+    // locate the .debug_line payload
+    let mut at = None;
+    for p in wasmparser::Parser::new(0).parse_all(bytes) {
+        if let Ok(wasmparser::Payload::CustomSection(c)) = p {
+            if c.name() == ".debug_line" {
+                at = Some(c.data_offset()..c.data_offset() + c.data().len());
+            }
+        }
+    }
+    let range = at?;
+    for p in range.start..range.end.saturating_sub(1) {
+        if bytes[p] == 0x04 && (bytes[p + 1] == 1 || bytes[p + 1] == 2) {
+            let mut b = bytes.to_vec();
+            b[p + 1] = 0;
+            if let Ok((rows, _)) = read_back(&b) {
+                let same = rows.len() == rows0.len() && rows.iter().zip(rows0.iter()).all(|(x, y)| x["addr"] == y["addr"] && x["line"] == y["line"]);
+                if same && rows.iter().any(|r| r["fidx"] == 0) {
+                    return Some(b);
+                }
+            }
+        }
+    }
+    None
+}
+
 /// a compile unit with a name and nothing else (for modules without code)
 pub fn attach_minimal(bytes: &[u8], version: u16) -> Vec<u8> {
     let encoding = Encoding { format: Format::Dwarf32, version, address_size: 4 };
@@ -150,9 +180,14 @@ pub fn read_back(bytes: &[u8]) -> Result<(Vec<Json>, Vec<Json>), String> {
         let unit = dwarf.unit(h).map_err(|e| e.to_string())?;
         if let Some(lp) = unit.line_program.clone() {
             let mut r = lp.rows();
-            while let Some((_, row)) = r.next_row().map_err(|e| e.to_string())? {
+            while let Some((h, row)) = r.next_row().map_err(|e| e.to_string())? {
+                // the file a row names, by name (its index is the line program's own business)
+                let fname = match row.file(h) {
+                    Some(f) => dwarf.attr_string(&unit, f.path_name()).map(|s| String::from_utf8_lossy(s.slice()).to_string()).unwrap_or_else(|_| "?".into()),
+                    None => format!("<no file {}>", row.file_index()),
+                };
                 rows.push(json!({"addr": row.address().to_string(), "line": row.line().map(|l| l.get()).unwrap_or(0), "col": match row.column() { gimli::ColumnType::LeftEdge => 0, gimli::ColumnType::Column(c) => c.get() },
-                                 "file": row.file_index(), "stmt": row.is_stmt(), "end": row.end_sequence()}));
+                                 "file": fname, "fidx": row.file_index(), "stmt": row.is_stmt(), "end": row.end_sequence()}));
             }
         }
         let mut entries = unit.entries();
